@@ -56,6 +56,9 @@ T = {
  "C35b-subscriber-key-search-unbounded": ("C35", "the free subscriber key search has no end condition", "256 live subscribers in one participant and one more create_subscriber (the worker spins for ever)", []),
 }
 NOTES = {
+ "C28b-register-at-limit-not-idempotent": "initially MISSED: no writer had a finite max_instances; limited writers and a slot oracle were added, after which it is caught",
+ "C30b-deadline-scan-stops-at-disposed-instance": "initially MISSED: one instance per writer and no dispose/unregister; several instances with dispose/unregister of some of them were added, after which it is caught",
+ "C32b-wait-loops-without-reregistering": "initially MISSED: no second task ever reset the status between the notification and the waiter's re-collection; raced-reset episodes (gated waiters) were added, after which it is caught",
  "C35b-subscriber-key-search-unbounded": "initially INCONCLUSIVE (a DDS task poll that never returns stalls the single-threaded simulation; only the wall-clock watchdog fired): a CPU-time hang monitor was added to the simulation (simnet/src/hang.rs), after which it is a VIOLATION",
  "C11-alive-sample-key-from-key-holder": "initially MISSED (the check compared handles in-process only; C01/C05 use a key-first type): the end-to-end half (keyident.rs) was added, after which it is caught",
  "C07-inline-qos-offset-checked-against-datagram": "caught by C07 at once; C06 initially MISSED it (its octetsToInlineQos class had no trailing submessage): class extended, after which C06 catches it too",
